@@ -369,6 +369,9 @@ def finish(res):
         else:
             fresh.append(v)
     os.makedirs(os.path.join(VERIF, "replays"), exist_ok=True)
+    import glob
+    for old in glob.glob(os.path.join(VERIF, "replays", "%s_%s_*.json" % (res.prop, res.tier))):
+        os.remove(old)          # replays describe this run only
     seen_sig = set()
     for i, v in enumerate(fresh):
         sig = v["signature"]
